@@ -34,6 +34,7 @@ func init() {
 			ruleIndexResetOnEveryPath(c, "R2c")
 			rulePatternsEnterThroughTheParser(c, "R11")
 			ruleOnlyTheWholePatternIsJudged(c, "R13")
+			ruleSegmentsAreBuiltFromParsedPieces(c, "R14")
 			ruleIndexedFieldsKeepValidatedText(c, "R12")
 		},
 	})
